@@ -615,6 +615,12 @@ def np_norm(x, ord=None, axis=None, keepdims=False):
 # LU, triangular solves (maxvol)
 # ---------------------------------------------------------------------------
 def sp_lu(a, permute_l=False, overwrite_a=False, check_finite=True, p_indices=False):
+    if overwrite_a and isinstance(a, _np.ndarray) and a.dtype == object and a.flags.f_contiguous \
+            and not a.flags.c_contiguous:
+        # (as for rq: LAPACK factorises in the caller's buffer when it is Fortran-contiguous)
+        res = sp_lu(a.copy(order='F'), permute_l, False, check_finite, p_indices)
+        _poison(a, 'a')
+        return res
     count('scipy.linalg.lu')
     if p_indices:
         raise Unmodelled('lu(p_indices)')
